@@ -169,7 +169,7 @@ Proof.
   unfold Exporter.sanity, Exporter.lookup_tpl. cbn [rec_tid rec_fc rec_buffer_e find fst snd]. rewrite N.eqb_refl. cbn [snd].
   assert (Hl : nels r = N.of_nat (length tpl)).
   { unfold nels. rewrite <- Ht, map_length. reflexivity. }
-  rewrite Hl, N.eqb_refl. cbn [negb].
+  rewrite Hl, N.eqb_refl. cbn [negb Exporter.cur Exporter.fx_reclen rec_buffer_e].
   change (data_len_v1 r) with (record_len r). rewrite get_buffer_n_eq.
   rewrite (get_buffer_spec r bs Hw E). cbn [obind].
   destruct (N.ltb_spec (blen bs) m) as [C|_]; [unfold blen in C; lia|].
